@@ -686,7 +686,8 @@ Definition init (ownid c p t0 : N) : state :=
    transactions are not modelled, so from then on replies / errors / transaction timeouts are not
    interpreted (Rskip on both sides).  While tracked, every transaction is a ping created by
    node_queried for an unknown, wanted node; there is at most one per address (DhtServer::ping),
-   hence its id is always the first candidate random() & 0xff. *)
+   hence its id is always the first candidate random() & 0xff (the harness's random() returns the
+   case's rnd while a datagram is processed, and the per-case constant [fill] otherwise). *)
 Record txn := mkTx { x_ip : N; x_tid : N; x_id : N; x_timeout : N; x_sent : bool }.
 Record sstate := mkSS { rs : state; txs : list txn; netup : bool; untracked : bool; fill : N }.
 
@@ -704,13 +705,13 @@ Definition wants_ping (s : state) (id : N) : bool :=
   match lookup id (tb (tab s)) with None => want_node s id | Some _ => false end.
 
 (* DhtServer::ping + add_transaction *)
-Definition ping (ss : sstate) (nw id ip : N) : sstate :=
+Definition ping (ss : sstate) (nw id ip tid : N) : sstate :=
   if max_transactions <=? lenN (txs ss) then ss
   else if existsb (fun x => x_ip x =? ip) (txs ss) then ss
-  else mkSS (rs ss) (txs ss ++ [mkTx ip (fill ss mod 256) id (nw + ping_timeout) false]) (netup ss) (untracked ss) (fill ss).
+  else mkSS (rs ss) (txs ss ++ [mkTx ip tid id (nw + ping_timeout) false]) (netup ss) (untracked ss) (fill ss).
 
 (* event_write: every queued packet goes out *)
-Definition flush (ss : sstate) : sstate :=
+Definition tx_flush (ss : sstate) : sstate :=
   mkSS (rs ss) (map (fun x => mkTx (x_ip x) (x_tid x) (x_id x) (x_timeout x) true) (txs ss)) (netup ss) (untracked ss) (fill ss).
 
 Definition nodes_total (t : table) : N := lenN (flat_map bnodes (tb t)).
@@ -799,18 +800,18 @@ Definition sstep_base (ss : sstate) (o : op) : sstate * res :=
   match o with
   | OQueried id ip port =>
     if id =? own s then (ss1, r)
-    else if wants_ping s id then (ping ss1 (now s) id ip, r) else (ss1, r)
+    else if wants_ping s id then (ping ss1 (now s) id ip (fill ss mod 256), r) else (ss1, r)
   | ODgram ip rnd m =>
     match r with
     | Rskip => (ss1, r)
     | _ => match dgram_info s ip rnd m with
-           | None => (flush ss1, r)
+           | None => (tx_flush ss1, r)
            | Some (id, s1, ok) =>
              let ss2 := set_netup ss1 true in
-             (flush (if ok && wants_ping s1 id then ping ss2 (now s) id ip else ss2), r)
+             (tx_flush (if ok && wants_ping s1 id then ping ss2 (now s) id ip (rnd mod 256) else ss2), r)
            end
     end
-  | OGarbage ip => (flush ss1, r)
+  | OGarbage ip => (tx_flush ss1, r)
   | OHousekeeping _ => (set_untracked (set_netup ss1 false) (0 <? nodes_total (tab s)), r)
   | OReplied id ip port => (set_untracked ss1 (replied_boots s id ip port), r)
   | _ => (ss1, r)
@@ -831,43 +832,43 @@ Definition sstep (ss : sstate) (o : sop) : sstate * res :=
     match o with
     | SReply ip t idb =>
       match t with
-      | None => (flush ss, Rdg (RpErr None E_no_tid))
+      | None => (tx_flush ss, Rdg (RpErr None E_no_tid))
       | Some tb =>
-        if 20 <? lenN tb then (flush ss, Rdg (RpErr (err_t t) E_tid_long)) else
+        if 20 <? lenN tb then (tx_flush ss, Rdg (RpErr (err_t t) E_tid_long)) else
         match idb with
-        | None => (flush ss, Rdg (RpErr (Some tb) E_bad_id))
+        | None => (tx_flush ss, Rdg (RpErr (Some tb) E_bad_id))
         | Some ib =>
-          if lenN ib <? hs_len then (flush ss, Rdg (RpErr (Some tb) E_id_short))
+          if lenN ib <? hs_len then (tx_flush ss, Rdg (RpErr (Some tb) E_id_short))
           else let id := be_to_N (firstn idbytes ib) in
                match tb with
                | [tid] =>
-                 if id =? own (rs ss) then (flush ss, Rdg RpNone)
+                 if id =? own (rs ss) then (tx_flush ss, Rdg RpNone)
                  else match find_tx ip tid (txs ss) with
-                      | None => (flush ss, Rdg RpNone)                       (* unsolicited: ignored *)
+                      | None => (tx_flush ss, Rdg RpNone)                       (* unsolicited: ignored *)
                       | Some x =>
                         let ss1 := set_netup ss true in
-                        if negb (id =? x_id x) && negb (x_id x =? 0) then (flush ss1, Rdg RpNone)   (* wrong id: ignored, kept *)
+                        if negb (id =? x_id x) && negb (x_id x =? 0) then (tx_flush ss1, Rdg RpNone)   (* wrong id: ignored, kept *)
                         else let ss2 := with_rs ss1 (fst (step sha (rs ss1) (OReplied id ip 0))) in
                              let ss3 := set_untracked ss2 (replied_boots (rs ss1) id ip 0) in
-                             (flush (set_txs ss3 (remove_tx ip tid (txs ss3))), Rdg RpNone)
+                             (tx_flush (set_txs ss3 (remove_tx ip tid (txs ss3))), Rdg RpNone)
                       end
                | _ => (* malformed reply from a node that names itself: counts as a failed query *)
-                 (flush (with_rs ss (fst (step sha (rs ss) (OInactive id ip 0)))), Rdg RpNone)
+                 (tx_flush (with_rs ss (fst (step sha (rs ss) (OInactive id ip 0)))), Rdg RpNone)
                end
         end
       end
     | SError ip t =>
       match t with
-      | None => (flush ss, Rdg (RpErr None E_no_tid))
+      | None => (tx_flush ss, Rdg (RpErr None E_no_tid))
       | Some tb =>
-        if 20 <? lenN tb then (flush ss, Rdg (RpErr (err_t t) E_tid_long)) else
+        if 20 <? lenN tb then (tx_flush ss, Rdg (RpErr (err_t t) E_tid_long)) else
         match tb with
         | [tid] => match find_tx ip tid (txs ss) with
-                   | None => (flush ss, Rdg RpNone)
+                   | None => (tx_flush ss, Rdg RpNone)
                    | Some x => let ss1 := set_netup ss true in
-                               (flush (set_txs ss1 (remove_tx ip tid (txs ss1))), Rdg RpNone)
+                               (tx_flush (set_txs ss1 (remove_tx ip tid (txs ss1))), Rdg RpNone)
                    end
-        | _ => (flush ss, Rdg (RpErr (Some tb) E_bad_t))
+        | _ => (tx_flush ss, Rdg (RpErr (Some tb) E_bad_t))
         end
       end
     | STimeout =>
